@@ -78,7 +78,13 @@ def check(pid, k, pids, tier="quick", wt=None, patch=None):
     patch = patch or (out_of(pid, k) + "/patch.diff")
     sh("git checkout -- .", cwd=wt)
     rc, o = sh("git apply %s" % patch, cwd=wt)
-    assert rc == 0, o
+    if rc != 0:
+        # the tree moved on (a later `fix:` commit touched the neighbourhood): apply with context fuzz
+        sh("git checkout -- .", cwd=wt)
+        rc, o2 = sh("patch -p1 --fuzz=3 -s --no-backup-if-mismatch -r - < %s" % patch, cwd=wt)
+        if rc != 0:
+            sh("git checkout -- .", cwd=wt)
+            raise ApplyFailed(o + o2)
     results = {}
     try:
         for p in pids:
@@ -102,6 +108,10 @@ def check(pid, k, pids, tier="quick", wt=None, patch=None):
         # leave lean/Univers/Gen as /repo says (the runs above regenerated it from the patched worktree)
         sh("%s -m harness.translate" % PY, cwd=VERIF)
     return results
+
+
+class ApplyFailed(Exception):
+    pass
 
 
 def keep(pid, k, needs, results, name=None):
@@ -154,7 +164,11 @@ def main(argv):
                 d = os.path.join(VERIF, "seeded", n)
                 meta = json.load(open(d + "/meta.json"))
                 pids = meta.get("caught_by") or [meta["breaks"]]
-                r = check(meta["breaks"], n, pids, wt=wt, patch=d + "/patch.diff")
+                try:
+                    r = check(meta["breaks"], n, pids, wt=wt, patch=d + "/patch.diff")
+                except ApplyFailed as e:
+                    print(meta["breaks"], n, "APPLY-FAILED", str(e)[-300:].replace("\n", " "))
+                    continue
                 meta["recheck"] = {p: {"rc": x["rc"], "n_violations": x["n_violations"]} for p, x in r.items()}
                 json.dump(meta, open(d + "/meta.json", "w"), indent=1, ensure_ascii=False)
         finally:
